@@ -225,6 +225,18 @@ pub fn run(ctx: &mut Ctx) {
             }
         }
     }
+    // long sources
+    for ta in [IDX_BVD, IDX_BV] {
+        for n in gen::long_lens(tier) {
+            if !ctx.mine() {
+                continue;
+            }
+            for va in gen::lattice_small(n, 64, &mut rng) {
+                let a = Spec::new(ta, va, via_for(ta, &mut rng));
+                emit_all(ctx, &a, 64, 0, "W-long-sources");
+            }
+        }
+    }
     // random
     let per = tier.pick(100, 300_000, 4_000_000) / ctx.nworkers + 1;
     let mut rng = Rng::derive(ctx.seed, 0x0809, ctx.worker as u64);
